@@ -631,6 +631,10 @@ func (v *Verifier) evalCall(env *Env, e *Expr) *Val {
 			return boolVal(Select(Select(hs.heapGet("G$smhas", ArrSort(SInt, ArrSort(SInt, SBool))), r), key))
 		}
 		return &Val{T: types.NewInterfaceType(nil, nil), Term: Select(Select(hs.heapGet("G$smval", ArrSort(SInt, ArrSort(SInt, SInt))), r), key)}
+	case "mark":
+		// mark(NAME, a, b): monotone ghost relation, set only by `ghost mark NAME(a, b) @SITE when COND` clauses
+		fam := "G$mark$" + args[0].Op
+		return boolVal(Select(Select(hs.heapGet(fam, ArrSort(SInt, ArrSort(SInt, SBool))), arg(1).Term), arg(2).Term))
 	case "closeonly":
 		return boolVal(hs.closeOnly(arg(0).Term))
 	case "clen":
